@@ -285,6 +285,9 @@ var uriSeeds = []string{
 	"seg=1", "seg=", "seg=1x", "seg=01", "seg=18446744073709551615", "seg=18446744073709551616", "seg=-1", "v=0", "t=5", "off=256", "seq=65536",
 	"sha256digest=00ff", "sha256digest=0", "sha256digest=zz", "sha256digest=", "params-sha256=AbCd", "foo=bar", "Seg=1", "v1=2",
 	"%", "%4", "%41", "%zz", "a%", "a%4", "a%41b", "%00", "%fF", "%%41", "a\\b", "\\", "a b", "\xff\xfe", "é", "a%C3%A9", ".", "..", "...", "/./../...",
+	// spelled-out words in label position (none of them is a label: all are unknown component types)
+	"keyword=DV", "/localhop/keyword=DV", "segment=1", "version=1", "timestamp=5", "sequence=7", "offset=9", "sha256=00ff", "params=AbCd",
+	"generic=a", "name=a", "digest=00", "metadata=1", "KEYWORD=x", "keyword=", "/a/keyword=b/c",
 	"/a/b/", "/a//b", "a/=b", "/8=a/32=b/seg=3", "/localhost/nfd", "32=", "/32=/", "/8=/", "8=", "/1=abc", "1=abcd", "2=00", "50=7", "54=7",
 }
 
@@ -320,7 +323,7 @@ func craftedCollision(r *common.Rand) (enc.Component, enc.Component) {
 
 var patSeeds = []string{"", "/", "<", ">", "<>", "<a>", "<=a>", "<a=>", "<a=b=c>", "<v=ver>", "<seg=n>", "<8=x>", "<0=x>", "<70000=x>",
 	"<18446744073709551616=x>", "/a/<b>", "/a/<v=x>/", "<a", "a>", "<<a>>", "</>", "<a/b>", "32=metadata/<v=versionNumber>/seg=0",
-	"<=>", "<==>", "< >", "<\x00>", "/<>/<>", "<params-sha256=d>", "<Seg=1>"}
+	"<=>", "<==>", "< >", "<\x00>", "/<>/<>", "<params-sha256=d>", "<Seg=1>", "<keyword=t>", "/a/<keyword=t>", "<segment=n>", "<version=v>", "<sha256=d>"}
 
 func genString(r *common.Rand, g *common.Gen) string {
 	switch r.Intn(4) {
